@@ -510,8 +510,8 @@ class Fn(object):
             if blk.noreturn:
                 continue
             for s, _ in blk.succ:
-                if s == self.exit and not blk.elems[i:]:
-                    # falling off the end of a void function
+                if s == self.exit:
+                    # falling off the end of a void function (every element of this block was passed without being blocked or returning)
                     if exit_pred is None:
                         return True
                 if origin is not None and self.contra(origin, s):
